@@ -63,6 +63,8 @@ def verify_function(world, qual, timeout_ms=5000, cover=True, mutate=None, want_
     if mutate is not None:
         fnode = mutate(fnode)
     world.strmode = getattr(c, 'strmode', None) or 'str'
+    # spec functions this contract keeps uninterpreted in its own VCs (sound: it only removes facts)
+    world.current_opaque = set(getattr(c, 'opaque_specs', ()))
     reset_fresh()
     eng = Engine(world, c, fnode, ns, cls_qual=info.cls_qual)
     eng.fn_kind = info.kind
